@@ -144,11 +144,40 @@ func (e *Engine) closureFor(prop string) []string {
 				tagged = true
 			}
 		}
-		for _, cl := range c.Ensures {
-			for _, t := range cl.Tags {
-				if t == prop {
-					tagged = true
+		// any clause tagged with the property makes the function a root: a tagged loop invariant, exit clause or anchored
+		// assertion that no caller in the property's call graph reaches would otherwise never be checked by anyone
+		scan := func(cls []*Clause) {
+			for _, cl := range cls {
+				if cl == nil {
+					continue
 				}
+				for _, t := range cl.Tags {
+					if t == prop {
+						tagged = true
+					}
+				}
+			}
+		}
+		scan(c.Ensures)
+		scan(c.Exits)
+		scan(c.Requires)
+		scan(c.Asserts)
+		for _, ls := range c.Loops {
+			scan(ls.Invs)
+			scan(ls.Asserts)
+		}
+		for _, cls := range c.Afters {
+			scan(cls)
+		}
+		for _, cls := range c.Returns {
+			scan(cls)
+		}
+		for _, cls := range c.Gotos {
+			scan(cls)
+		}
+		for _, pc := range c.Panics {
+			if pc.When != nil {
+				scan([]*Clause{pc.When})
 			}
 		}
 		if tagged {
@@ -256,6 +285,23 @@ func (e *Engine) verifyMany(keys []string, withLemmas bool, timeoutS int, thorou
 	}
 	dir := scratchDir()
 	e.dischargeAll(rs.obls, dir, timeoutS, thorough, 10)
+	// A timeout is not a refutation.  On a loaded machine an obligation that normally takes a few seconds can exceed
+	// the limit while ten solvers run side by side; the few undecided ones (no model, no `sat`) are tried once more,
+	// two at a time and with three times the limit, before they are reported.  Real violations cost at most that extra time.
+	var again []*Obligation
+	for _, o := range rs.obls {
+		if !o.ExpectSat && (o.Status == "timeout" || o.Status == "unknown") {
+			again = append(again, o)
+		}
+	}
+	if n := len(again); n > 0 && n <= 6 {
+		for _, o := range again {
+			o.Retried = true
+		}
+		dir2 := filepath.Join(dir, "retry")
+		os.MkdirAll(dir2, 0o755)
+		e.dischargeAll(again, dir2, 3*timeoutS, thorough, 2)
+	}
 	// keep SMT files of failures only
 	keep := filepath.Join(verifRoot, "replays", "smt")
 	for _, o := range rs.obls {
